@@ -34,9 +34,13 @@ What is proved: exactly this, for every Core program in `InPipeFragment` (`pipel
 * `fragLift` — `DirectFlow`, the hypothesis of `Lift.lift_preserves_partial` (C08).
 * `fragAnf` — `FileInAnfFragment`, the hypothesis of `C09.anf_run_preserves_partial` (C09).
 
-The back half: `end_to_end_partial` continues the chain to `Go.Sem` of the emitted file with
-`go/compile.rs` as the one named hypothesis `hcompile : CompileSim compile A` (another worker is
-modelling it) — see the doc comment there for what is and is not covered of `go/dce.rs`.
+The back half (added after `go/compile.rs` got its model, worker gocomp, and after `Go.Sem.zero`
+became total and `callG` got Go's arity rule): `core_to_go_preserves` (Core → compiled Go before
+DCE, fragment `InE2EFragment`) and **`core_to_emitted_go_preserves`** (Core → the emitted file,
+`eliminate_dead_vars` included, fragment `InEmitFragment`) have NO hypothesis besides their
+decidable fragment.  `end_to_end_partial` / `end_to_end_before_dce` keep the generic form with
+`CompileSim` / `DceFileSim` as parameters; both are now discharged
+(`compileSim_of_fragGo`, `dceFileSim_of_ok`).
 -/
 namespace Goml.Pipeline
 open Goml Goml.Sem
@@ -172,36 +176,24 @@ theorem pipeline_outcome_unique (i : PipeIn) (A : Prog) (hA : pipeline i = some 
   have e1 := hm (max m0 f2) (Nat.le_max_left _ _)
   rw [← run_stable h2 (Nat.le_max_right m0 f2), e1]
 
-/-! ## the back half: Go generation and dead-code elimination
+/-! ## the back half: Go generation and dead-code elimination — generic form
 
-`go/compile.rs` has no Lean model yet (worker `gocomp` is building one): it enters as the
-hypothesis `hcompile : CompileSim compile A` — a PARAMETER of the theorem, not an axiom.
-
-`go/dce.rs` has the per-block theorem `Dce.dce_preserves` (`Props/Dce.lean`: a definite `Go.Sem`
-run of a block is reproduced by its DCE'd form, callees looked up in the SAME file on both sides).
-It could not be chained, because C01 needs the statement for FILES, `runGo (eliminateDeadVars G)`
-against `runGo G`, and that lifting is not available:
- * `Go.Sem.zero` (zero value of a declared type, used by `var x T` and by composite literals)
-   is a `partial def` taking the file as an argument, i.e. an opaque constant of the logic, so
-   `zero G` and `zero (eliminateDeadVars G)` are unrelated terms although the struct declarations
-   they read are the same — no theorem can connect runs in two different files until `zero` is
-   made total (a change of the shared semantics `Model/GoSem.lean`, not made here);
- * `dce_preserves_body` wants `scopeErrs D (keys ρ) body = []` for the ACTUAL parameter
-   environment; `Go.Sem.callG` zips parameters with arguments, so a call through a function value
-   with too few arguments (impossible in typed Go, possible in the untyped `Go.Sem`) runs the body
-   in a smaller environment than the one the contract was checked for — the per-function contract
-   does not transfer to dynamic calls without an arity rule in `Go.Sem` or a re-proved block
-   theorem;
- * `prune_dead_functions` additionally needs the invariant that every function value reachable
-   from `main` names a function in the reachable set (`Dce.prune_funcs_closed` is its syntactic
-   half).
-So the file-level statement is the second, clearly marked hypothesis `hdce : DceFileSim G`; it is
-VALIDATED on every run by `./check dce` / `./check C09` (oracle `gosem`: `Go.Sem` of the real DCE
-output = `Go.Sem` of its input, per program).
-
-    -- full statement (the goal), with `compile`, `eliminateDeadVars` the models of the two passes:
-    -- theorem end_to_end : pipeline i = some A → Definite (Sem.run fuel i.prog) →
-    --   ∃ m, Go.runGo m (eliminateDeadVars (compile A)) = Sem.run fuel i.prog
+`end_to_end_partial` states the continuation to `Go.Sem` for ANY back-end model `compile` with the
+two links as parameters (not axioms): `hcompile : CompileSim compile A` and
+`hdce : DceFileSim (compile A)`.  Both are theorems now, for the models of `go/compile.rs` and
+`go/dce.rs`:
+ * `compileSim_of_fragGo` — from `GoCompileProps.compile_preserves_run` (worker gocomp), for the
+   composite's own re-annotated ANF (`annotFile_toFn`: erasing the annotations gives the ANF program
+   back);
+ * `dceFileSim_of_ok` — from `Dce.dce_file_preserves`, the FILE-level lifting of `dce_preserves`
+   (`Lemmas/GoFileSim.lean`: `Go.Sem` congruence for files whose function bodies forward-simulate;
+   `Lemmas/GoFilePrune.lean`: lock-step insensitivity to functions outside the reachable set, with
+   the invariant that no value contains such a function value; `Lemmas/DceFile{,2}.lean`).  The
+   three blockers recorded earlier were removed at the source: `Go.Sem.zero` is a total definition
+   that reads the file only through its struct declarations, `callG` with a wrong number of
+   arguments is `stuck` (Go's static arity rule), and the reachable-function-value invariant is
+   proved.
+The hypothesis-free statements are `core_to_go_preserves` and `core_to_emitted_go_preserves` below.
 -/
 open Goml.Go in
 /-- **end_to_end_partial.**  For every Core program in `InPipeFragment`, every definite `Sem` run of
@@ -226,6 +218,79 @@ theorem end_to_end_before_dce (i : PipeIn) (A : Prog) (hA : pipeline i = some A)
   have e0 := hm0 m0 (Nat.le_refl _)
   obtain ⟨m1, hm1⟩ := hcompile m0 eager (by rw [e0]; exact hdef)
   exact ⟨m1, by rw [hm1, e0]⟩
+
+/-! ## Core → Go without the `hcompile` hypothesis (back end: worker gocomp's theorem) -/
+
+/-- the fragment of `core_to_go_preserves`: `InPipeFragment` ∧ the back end's `fragGo` (`main` and
+    everything it calls in `GoFrag.closedOK`, the hypothesis of `GoCompileProps.compile_preserves_run`,
+    evaluated on the composite's own annotated ANF) — ONE decidable predicate (`Model/Pipeline.lean`) -/
+def InE2EFragment (i : E2EIn) : Prop := inE2EFragment i = true
+
+instance (i : E2EIn) : Decidable (InE2EFragment i) := by
+  unfold InE2EFragment; infer_instance
+
+/-- **core_to_go_preserves.**  `compileGoPre i` is the whole model pipeline up to (not including)
+    dead-code elimination: `mono`, `lift`, `anf`, re-annotation, `go_file` without its last step.
+    For every Core program in `InE2EFragment`, every definite `Sem` run of `main` (normal end or
+    panic; stdout, status, extern events) is the `Go.Sem` outcome of the compiled file for some fuel,
+    under either `go` schedule.  No hypothesis besides the decidable fragment: the `CompileSim`
+    parameter of `end_to_end_before_dce` is discharged by `compile_preserves_run`. -/
+theorem core_to_go_preserves (i : E2EIn) (G : Goml.Go.GFile) (hG : compileGoPre i = some G) (hfrag : InE2EFragment i)
+    (fuel : Nat) (eager : Bool) (hdef : Definite (run fuel i.pipe.prog "main" eager)) :
+    ∃ m, Goml.Go.runGo m G "main" eager = run fuel i.pipe.prog "main" eager := by
+  unfold InE2EFragment inE2EFragment at hfrag
+  simp only [Bool.and_eq_true] at hfrag
+  obtain ⟨hpipe, hback⟩ := hfrag
+  cases hb : backStages i with
+  | none => rw [hb] at hback; cases hback
+  | some b =>
+    rw [hb] at hback
+    simp only at hback
+    have hspec := backStages_spec hb
+    have hA : pipeline i.pipe = some b.mid.anf := by simp [pipeline, hspec.1]
+    have hGb : G = b.pre := by
+      simp only [compileGoPre, hb, Option.map_some, Option.some.injEq] at hG
+      exact hG.symm
+    subst hGb
+    exact end_to_end_before_dce i.pipe b.mid.anf hA hpipe (fun _ => b.pre) (compileSim_of_fragGo hb hback)
+      fuel eager hdef
+
+/-! ## Core → emitted Go, no hypotheses (DCE: `Dce.dce_file_preserves`) -/
+
+/-- the fragment of `core_to_emitted_go_preserves`: `InE2EFragment` ∧ the compiled file satisfies
+    `Dce.fileDceOK` — ONE decidable predicate (`Model/Pipeline.lean`), evaluated on every real
+    program by the tie -/
+def InEmitFragment (i : E2EIn) : Prop := inEmitFragment i = true
+
+instance (i : E2EIn) : Decidable (InEmitFragment i) := by
+  unfold InEmitFragment; infer_instance
+
+/-- **core_to_emitted_go_preserves.**  `compileGo i` is the WHOLE model pipeline: `mono`, `lift`,
+    `anf`, re-annotation, `go_file` including `eliminate_dead_vars` — the file `go_pprint` prints.
+    For every Core program in `InEmitFragment`, every definite `Sem` run of `main` (normal end or
+    panic; stdout, status, extern events) is the `Go.Sem` outcome of the emitted file for some fuel,
+    under either `go` schedule.  No hypotheses other than the decidable fragment: both parameters of
+    `end_to_end_partial` are discharged (`hcompile` by `GoCompileProps.compile_preserves_run`,
+    `hdce` by `Dce.dce_file_preserves`). -/
+theorem core_to_emitted_go_preserves (i : E2EIn) (G : Goml.Go.GFile) (hG : compileGo i = some G)
+    (hfrag : InEmitFragment i) (fuel : Nat) (eager : Bool) (hdef : Definite (run fuel i.pipe.prog "main" eager)) :
+    ∃ m, Goml.Go.runGo m G "main" eager = run fuel i.pipe.prog "main" eager := by
+  unfold InEmitFragment inEmitFragment at hfrag
+  simp only [Bool.and_eq_true] at hfrag
+  obtain ⟨he2e, hd⟩ := hfrag
+  cases hb : backStages i with
+  | none => rw [hb] at hd; cases hd
+  | some b =>
+    rw [hb] at hd
+    simp only [fragDce] at hd
+    have hspec := backStages_spec hb
+    have hGe : G = Dce.eliminateDeadVars b.pre := by
+      simp only [compileGo, hb, Option.map_some, Option.some.injEq] at hG
+      rw [← hG, hspec.2.2.2.2.2]
+    subst hGe
+    obtain ⟨m1, e1⟩ := core_to_go_preserves i b.pre (by simp [compileGoPre, hb]) he2e fuel eager hdef
+    obtain ⟨m2, e2⟩ := dceFileSim_of_ok b.pre hd m1 eager (by rw [e1]; exact hdef)
+    exact ⟨m2, by rw [e2, e1]⟩
 
 /-! ## non-vacuity: three real Core dumps (closure + generic + match; `Lemmas/PipeExamples.lean`) -/
 section Examples
@@ -255,6 +320,31 @@ example : (pipeline ex2).map (fun A => obs (run 400 A)) = some ("3\n", "panic:in
 example : InPipeFragment ex3 := by decide +kernel
 example : obs (run 200 ex3.prog) = ("box43\n", "ok", []) := by decide +kernel
 example : (pipeline ex3).map (fun A => obs (run 400 A)) = some ("box43\n", "ok", []) := by decide +kernel
+
+/-- `corpus/C01pipe/e2e-closure-generic-struct-panic.gom` (real Core dump + real `GlobalGoEnv` dump):
+    a closure capturing the result of a generic call, a struct, printing, then a division by zero —
+    inside the END-TO-END fragment: `core_to_go_preserves` speaks about it -/
+example : InE2EFragment e2e4 := by decide +kernel
+example : obs (run 200 e2e4.pipe.prog) = ("b15\n", "panic:integer divide by zero", []) := by decide +kernel
+example : ∃ G, compileGoPre e2e4 = some G ∧ ∃ m, Goml.Go.runGo m G "main" true = run 200 e2e4.pipe.prog := by
+  cases h : compileGoPre e2e4 with
+  | none => exact absurd h (by decide +kernel)
+  | some G =>
+    exact ⟨G, rfl, core_to_go_preserves e2e4 G h (by decide +kernel) 200 true
+      (Or.inr ⟨"integer divide by zero", by decide +kernel⟩)⟩
+/-- the same program is inside the fragment of `core_to_emitted_go_preserves` (the compiled file
+    satisfies the DCE contract); the compiled `gomlmodel` runs the emitted file to `b15`, then the
+    division-by-zero panic, like the Core program (the kernel does not: `Go.Sem` on a whole file with
+    its runtime functions is too large a term for `decide`) -/
+example : InEmitFragment e2e4 := by decide +kernel
+example : ∃ G, compileGo e2e4 = some G ∧ ∃ m, Goml.Go.runGo m G "main" true = run 200 e2e4.pipe.prog := by
+  cases h : compileGo e2e4 with
+  | none => exact absurd h (by decide +kernel)
+  | some G =>
+    exact ⟨G, rfl, core_to_emitted_go_preserves e2e4 G h (by decide +kernel) 200 true
+      (Or.inr ⟨"integer divide by zero", by decide +kernel⟩)⟩
+/-- the earlier examples use enums / `Ref`, which the back end's fragment does not cover yet -/
+example : ¬ InE2EFragment { pipe := ex1 } := by decide +kernel
 
 /-- the theorem applied: the ANF program of example 1 prints what its Core program prints -/
 example : ∃ A, pipeline ex1 = some A ∧ ∃ m0, ∀ m, m0 ≤ m → run m A = run 100 ex1.prog := by
